@@ -139,6 +139,12 @@ def case(spec):
         path = os.path.join(tmp, 'w.%s' % dm.ext_for(s))
         raw = s.image()
         write_file(path, raw)
+        # a second, plain Acorn disc in drive 1: explicit ':1.' specifications must reach it whatever the current
+        # drive / volume is
+        s2, _ = build_surface(rng, names[:12], 'acorn')
+        path2 = os.path.join(tmp, 'second.ssd')
+        write_file(path2, s2.image())
+        ents2 = s2.volumes[0].cat.all_entries()
         # a second, different image on another drive so that the drive default matters
         files = {os.path.basename(path): raw}
         res.seen('variants', variant)
@@ -165,6 +171,10 @@ def case(spec):
                 pre += ['--dir', cur_dir]
             if cur_vol:
                 pre += ['--drive', '0' + cur_vol]
+            if rng.random() < 0.25:
+                # a presentation option after (or before) the context options must not disturb them
+                uo = ['--ui', rng.choice(['acorn', 'watford', 'opus'])]
+                pre = pre + uo if rng.random() < 0.7 else uo + pre
             if not explicit_drive and target_vol and not cur_vol:
                 continue
             parsed = rm.parse_afsp(pat, 0, cur_dir)
@@ -192,6 +202,44 @@ def case(spec):
                               'info %r selected %r, the documented semantics select %r' % (pat, gotnames[:6], expnames[:6]),
                               {'pattern': pat, 'cur_dir': cur_dir, 'pre': pre, 'metachars': mc, 'run': r_.brief(),
                                'catalogue': [e.full for e in ents]}, files, r_.argv)
+        # ---------------- explicit drive 1 (second image) under any current drive / volume
+        for _ in range(4):
+            pre = []
+            if target_vol and rng.random() < 0.7:
+                pre += ['--drive', '0' + target_vol]
+            elif rng.random() < 0.3:
+                pre += ['--drive', '0']
+            cur_dir = rng.choice(['$', 'K'] + sorted(set(e.dir for e in ents2))[:2])
+            if cur_dir != '$':
+                pre += ['--dir', cur_dir]
+            namepat = rand_pattern(rng, alpha if kind != 'sweep' else alpha, [(e.dir, e.name) for e in ents2])
+            if not namepat or '.' in namepat:
+                continue
+            pat = ':1.' + (rng.choice(['#.', '$.', '*.', '']) + namepat)
+            parsed = rm.parse_afsp(pat, 0, cur_dir)
+            if parsed is None:
+                continue
+            _, _, pdir, pname = parsed
+            exp = [(e.dir, e.name) for e in ents2 if rm.wild_match(pdir, e.dir) and rm.wild_match(pname, e.name)]
+            r_ = dfs(dfsbin, [path, path2], ['info', pat], pre=['--drive-first'] + pre)
+            res.execs += 1
+            if screen(res, r_, PROP, 'info', files):
+                continue
+            res.events += 1
+            got = [rm.parse_info_line(l) for l in r_.out.split(b'\n') if l]
+            gotnames = [(g['dir'], g['name']) if g else None for g in got]
+            if r_.rc != 0 or gotnames != exp:
+                res.violation('info-select-other-drive', 'info %r (second image on drive 1, options %r) selected %r, expected %r'
+                              % (pat, pre, gotnames[:6], exp[:6]), {'run': r_.brief()}, files, r_.argv)
+            if ents2:
+                e2 = rng.choice(ents2)
+                r_ = dfs(dfsbin, [path, path2], ['type', '--binary', ':1.%s.%s' % (e2.dir, e2.name)], pre=['--drive-first'] + pre)
+                res.execs += 1
+                res.events += 1
+                if not screen(res, r_, PROP, 'type', files) and (r_.rc != 0 or r_.out != e2.body):
+                    res.violation('resolve-other-drive', 'type :1.%s.%s did not deliver the file of the disc in drive 1 (options %r)'
+                                  % (e2.dir, e2.name, pre), {'run': r_.brief()}, files, r_.argv)
+            res.sigs.append('drive1|%s|%s' % (pat, ' '.join(pre)))
         # ---------------- name resolution for type / list / dump
         probes = []
         for e in (rng.sample(ents, min(len(ents), 4)) if ents else []):
@@ -247,6 +295,9 @@ def case(spec):
                 sp = '%s.%s' % (e.dir, nm)
             else:
                 sp = ':%s.%s.%s' % (dv, e.dir, nm)
+            if rng.random() < 0.25:
+                uo = ['--ui', rng.choice(['acorn', 'watford', 'opus'])]
+                pre = pre + uo if rng.random() < 0.7 else uo + pre
             cmd = rng.choice(['type', 'type', 'list', 'dump'])
             args = [cmd, '--binary', sp] if cmd == 'type' else [cmd, sp]
             if cmd == 'type' and rng.random() < 0.25:
